@@ -241,9 +241,9 @@ theorem C07_struct_child_is_own_tree {names : List String} {cs : List Conv} {v :
     cases k' <;> simp only [structKnown] at hkn <;> try cases hkn
     rename_i s
     cases hc : cs[i]? with
-    | none => simp [applyAt, colCs_getElem?, hc] at hrep
+    | none => simp [applyAt, colCs_getElemT?, hc] at hrep
     | some c =>
-      rw [applyAt_colCs hc] at hrep
+      rw [applyAt_colCs_T hc] at hrep
       exact ⟨s, i, c, x, rfl, hkn, hc, hmem, hrep⟩
 
 /-- conversely every entry under a declared name whose value is rejected by that field's converter has
@@ -320,7 +320,7 @@ theorem C07_pane_struct_first_key (hG : GuardsCover = true) (hE : ExtOk E)
   apply kids_rejected hz
   rw [List.mem_map]
   refine ⟨(pre, (k, x)), mem_splits.2 ⟨pre, post, hsplit, by simp⟩, ?_⟩
-  simp only [paneReport, hfi, hf, hfirst, Bool.false_eq_true, if_false, applyAt_colCs hc, hr]
+  simp only [paneReport, hfi, hf, hfirst, Bool.false_eq_true, if_false, applyAt_colCs_T hc, hr]
 
 /-- a later key for a field already named by an earlier key: the child is `DuplicateKeyError` -/
 theorem C07_pane_struct_dup_key (hG : GuardsCover = true) (hE : ExtOk E)
@@ -377,9 +377,9 @@ theorem C07_pane_struct_child (hG : GuardsCover = true) (hE : ExtOk E)
         rw [hany] at hrep
         simp only [Bool.false_eq_true, if_false] at hrep
         cases hc : cs[i]? with
-        | none => simp [applyAt, colCs_getElem?, hc] at hrep
+        | none => simp [applyAt, colCs_getElemT?, hc] at hrep
         | some c =>
-          rw [applyAt_colCs hc] at hrep
+          rw [applyAt_colCs_T hc] at hrep
           exact .inr ⟨rfl, c, rfl, hrep⟩
 
 end PaneStructPointwise
@@ -460,9 +460,9 @@ theorem C07_pane_tuple_child_is_own_tree (hG : GuardsCover = true) (hE : ExtOk E
     | some x =>
       simp only [hpf, hx, Option.some.injEq] at hrp
       cases hc : cs[i]? with
-      | none => simp [applyAt, colCs_getElem?, hc] at hrp
+      | none => simp [applyAt, colCs_getElemT?, hc] at hrp
       | some c =>
-        rw [applyAt_colCs hc] at hrp
+        rw [applyAt_colCs_T hc] at hrp
         exact ⟨p, f, i, c, x, by simpa using hkp, hpf, hc, hx, hrp⟩
 
 /-! ## Unions -/
@@ -486,12 +486,12 @@ theorem C07_sum_children (cs : List Conv) (v : Val) {ts : List Err}
       simp only [Outcome.ok.injEq, Option.some.injEq, Err.sum.injEq] at h
       subst h
       obtain ⟨h1, h2⟩ := sumCol_members _ _ _ _ hs
-      rw [tryCs_length, colCs_length, Nat.min_self] at h1
+      rw [tryCs_length, colCs_length_T, Nat.min_self] at h1
       refine ⟨h1, ?_⟩
       intro i hi1 hi2
       obtain ⟨f, c, hf, hc, hfv, hcv⟩ := h2 i l[i] (List.getElem?_eq_getElem hi2)
-      rw [tryCs_getElem?, List.getElem?_eq_getElem hi1] at hf
-      rw [colCs_getElem?, List.getElem?_eq_getElem hi1] at hc
+      rw [tryCs_getElemT?, List.getElem?_eq_getElem hi1] at hf
+      rw [colCs_getElemT?, List.getElem?_eq_getElem hi1] at hc
       simp only [Option.map_some, Option.some.injEq] at hf hc
       subst hf; subst hc
       exact ⟨hcv, hfv⟩
@@ -524,9 +524,9 @@ theorem C07_tagged_body_only (cs : List Conv) (tag : String) (tagMap : List (Val
   have hc : cs[i]? = some cs[i] := List.getElem?_eq_getElem hi
   refine ⟨cs[i], hc, ?_, ?_⟩
   · simp only [colC, hm, hx, hl, guardCol_ok, Bool.not_true, Bool.false_eq_true, if_false]
-    exact applyAt_colCs hc body
+    exact applyAt_colCs_T hc body
   · simp only [tryC, hm, hx, hl, guardTry_ok, Bool.not_true, Bool.false_eq_true, if_false]
-    exact applyAt_tryCs hc body
+    exact applyAt_tryCs_T hc body
 
 /-- **C07 (tagged union, tag key absent).**  The node is a leaf recording the input, whose `expected`
 text names the tag key (`tag`; for the adjacent layout the tag key `t` and the content key `c`). -/
@@ -842,14 +842,14 @@ theorem exUnion_tree : colC extRaising exConv (.dict [(.str "x", .str "no")]) =
 example := C07_sum_children _ _ exUnion_tree
 
 /-- externally tagged union `{"i": int} | {"s": str}` -/
-def exTagged : Conv := .tagged [exInt, exStr] "kind" [(.str "i", 0), (.str "s", 1)] .external
+def exTagged_T : Conv := .tagged [exInt, exStr] "kind" [(.str "i", 0), (.str "s", 1)] .external
 
 example : ∃ c, [exInt, exStr][0]? = some c ∧
-    colC extRaising exTagged (.dict [(.str "i", .str "no")]) = colC extRaising c (.str "no") ∧
-    tryC extRaising exTagged (.dict [(.str "i", .str "no")]) = tryC extRaising c (.str "no") :=
+    colC extRaising exTagged_T (.dict [(.str "i", .str "no")]) = colC extRaising c (.str "no") ∧
+    tryC extRaising exTagged_T (.dict [(.str "i", .str "no")]) = tryC extRaising c (.str "no") :=
   C07_tagged_body_only _ _ _ _ (by decide) _ (t := .str "i") (body := .str "no") rfl (by with_unfolding_all rfl)
 
-example : colC extRaising exTagged (.dict [(.str "q", .str "no")]) =
+example : colC extRaising exTagged_T (.dict [(.str "q", .str "no")]) =
     .ok (some (.wrongType ("tag 'kind' one of " ++ listPhrase ["'i'", "'s'"]) (.str "q") none none)) :=
   C07_tagged_tag_unknown C03_guards _ _ _ _ _ (t := .str "q") (body := .str "no")
     (e := { cls := .keyError, msg := "KeyError" }) rfl (by with_unfolding_all rfl)
